@@ -451,26 +451,79 @@ func (ex *Exec) snapshotStringsValid(v Value) *Term {
 
 // --------------------------------------------------------------------- base64
 
-// b64Char: the standard-alphabet character of a 6-bit value (no forking).
-func (ex *Exec) b64Char(n *Term) *Term {
-	ts := ex.ts
-	if n.IsConst() {
-		return ts.Const(8, uint64("ABCDEFGHIJKLMNOPQRSTUVWXYZabcdefghijklmnopqrstuvwxyz0123456789+/"[n.K&63]))
+// b64Enc: what the stub reads from the receiver *base64.Encoding (built by the
+// interpreted package initialiser): the two alphabet characters that differ
+// between the standard and URL alphabets, and the padding character (-1 none).
+type b64Enc struct {
+	c62, c63 uint64
+	pad      int64
+}
+
+func (ex *Exec) b64Recv(recv Value) b64Enc {
+	p := ex.derefPtr(recv, "nil *base64.Encoding")
+	st, ok := (*p.P).(Struct)
+	if !ok || len(st) < 4 {
+		ex.unsupported("base64: receiver is not an Encoding built by the package initialiser")
 	}
+	tab, ok := st[0].(Array)
+	if !ok || len(tab) != 64 {
+		ex.unsupported("base64: encode table not available")
+	}
+	const std = "ABCDEFGHIJKLMNOPQRSTUVWXYZabcdefghijklmnopqrstuvwxyz0123456789"
+	var e b64Enc
+	for i, v := range tab {
+		t, ok := v.(*Term)
+		if !ok || !t.IsConst() {
+			ex.unsupported("base64: symbolic alphabet")
+		}
+		switch {
+		case i < 62:
+			if t.K != uint64(std[i]) {
+				ex.unsupported("base64: alphabet other than the standard or URL one")
+			}
+		case i == 62:
+			e.c62 = t.K
+		default:
+			e.c63 = t.K
+		}
+	}
+	pt, ok := st[2].(*Term)
+	if !ok || !pt.IsConst() {
+		ex.unsupported("base64: symbolic padding character")
+	}
+	e.pad = scoef(pt.K, pt.W)
+	if st, ok := st[3].(*Term); !ok || !st.IsConst() || st.K != 0 {
+		ex.unsupported("base64: strict mode")
+	}
+	return e
+}
+
+// b64Char: the alphabet character of a 6-bit value (no forking).
+func (ex *Exec) b64Char(e b64Enc, n *Term) *Term {
+	ts := ex.ts
 	c := func(v uint64) *Term { return ts.Const(8, v) }
+	if n.IsConst() {
+		switch n.K & 63 {
+		case 62:
+			return c(e.c62)
+		case 63:
+			return c(e.c63)
+		}
+		return ts.Const(8, uint64("ABCDEFGHIJKLMNOPQRSTUVWXYZabcdefghijklmnopqrstuvwxyz0123456789"[n.K&63]))
+	}
 	return ts.Ite(ts.Ult(n, c(26)), ts.Add(n, c('A')),
 		ts.Ite(ts.Ult(n, c(52)), ts.Add(n, c('a'-26)),
 			ts.Ite(ts.Ult(n, c(62)), ts.Sub(ts.Add(n, c('0')), c(52)),
-				ts.Ite(ts.Eq(n, c(62)), c('+'), c('/')))))
+				ts.Ite(ts.Eq(n, c(62)), c(e.c62), c(e.c63)))))
 }
 
-// b64Val: value and validity of a standard-alphabet character.
-func (ex *Exec) b64Val(ch *Term) (*Term, *Term) {
+// b64Val: value and validity of an alphabet character.
+func (ex *Exec) b64Val(e b64Enc, ch *Term) (*Term, *Term) {
 	ts := ex.ts
 	c := func(v uint64) *Term { return ts.Const(8, v) }
 	in := func(lo, hi uint64) *Term { return ts.And(ts.Ule(c(lo), ch), ts.Ule(ch, c(hi))) }
 	up, low, dig := in('A', 'Z'), in('a', 'z'), in('0', '9')
-	plus, slash := ts.Eq(ch, c('+')), ts.Eq(ch, c('/'))
+	plus, slash := ts.Eq(ch, c(e.c62)), ts.Eq(ch, c(e.c63))
 	val := ts.Ite(up, ts.Sub(ch, c('A')),
 		ts.Ite(low, ts.Add(ts.Sub(ch, c('a')), c(26)),
 			ts.Ite(dig, ts.Add(ts.Sub(ch, c('0')), c(52)),
@@ -479,7 +532,7 @@ func (ex *Exec) b64Val(ch *Term) (*Term, *Term) {
 	return val, valid
 }
 
-func (ex *Exec) b64Encode(src []*Term) []*Term {
+func (ex *Exec) b64Encode(e b64Enc, src []*Term) []*Term {
 	ts := ex.ts
 	var out []*Term
 	c := func(v uint64) *Term { return ts.Const(8, v) }
@@ -496,17 +549,23 @@ func (ex *Exec) b64Encode(src []*Term) []*Term {
 		if i+2 < len(src) {
 			b2 = src[i+2]
 		}
-		out = append(out, ex.b64Char(shr(b0, 2)))
+		out = append(out, ex.b64Char(e, shr(b0, 2)))
 		if b1 == nil {
-			out = append(out, ex.b64Char(shl(and(b0, 3), 4)), c('='), c('='))
+			out = append(out, ex.b64Char(e, shl(and(b0, 3), 4)))
+			if e.pad >= 0 {
+				out = append(out, c(uint64(e.pad)), c(uint64(e.pad)))
+			}
 			break
 		}
-		out = append(out, ex.b64Char(or(shl(and(b0, 3), 4), shr(b1, 4))))
+		out = append(out, ex.b64Char(e, or(shl(and(b0, 3), 4), shr(b1, 4))))
 		if b2 == nil {
-			out = append(out, ex.b64Char(shl(and(b1, 15), 2)), c('='))
+			out = append(out, ex.b64Char(e, shl(and(b1, 15), 2)))
+			if e.pad >= 0 {
+				out = append(out, c(uint64(e.pad)))
+			}
 			break
 		}
-		out = append(out, ex.b64Char(or(shl(and(b1, 15), 2), shr(b2, 6))), ex.b64Char(and(b2, 63)))
+		out = append(out, ex.b64Char(e, or(shl(and(b1, 15), 2), shr(b2, 6))), ex.b64Char(e, and(b2, 63)))
 	}
 	return out
 }
@@ -522,7 +581,7 @@ func initB64Stubs() {
 		for i, e := range sl.A {
 			src[i] = e.(*Term)
 		}
-		out := ex.b64Encode(src)
+		out := ex.b64Encode(ex.b64Recv(args[0]), src)
 		if len(out) == 0 {
 			return Str{}
 		}
@@ -534,11 +593,12 @@ func initB64Stubs() {
 			ex.unsupported("base64 decode of opaque content")
 		}
 		ts := ex.ts
+		e := ex.b64Recv(args[0])
 		bs := flatBytes(s)
 		fail := func() Value {
 			return Tuple{Slice{A: []Value{}}, ex.mkError(ex.strLit("illegal base64 data"))}
 		}
-		if len(bs)%4 != 0 {
+		if e.pad >= 0 && len(bs)%4 != 0 || e.pad < 0 && len(bs)%4 == 1 {
 			return fail()
 		}
 		var out []Value
@@ -548,18 +608,24 @@ func initB64Stubs() {
 		or := func(a, b *Term) *Term { return ts.BinBV(OOr, a, b) }
 		valid := ts.True()
 		for i := 0; i < len(bs); i += 4 {
-			q := bs[i : i+4]
-			last := i+4 == len(bs)
 			pad := 0
-			if last && ex.isByte(q[3], '=') {
+			var q []*Term
+			if i+4 <= len(bs) {
+				q = bs[i : i+4]
+			} else { // unpadded tail of 2 or 3 characters
+				q = bs[i:]
+				pad = 4 - len(q)
+			}
+			last := i+4 == len(bs)
+			if e.pad >= 0 && last && ex.isByte(q[3], byte(e.pad)) {
 				pad = 1
-				if ex.isByte(q[2], '=') {
+				if ex.isByte(q[2], byte(e.pad)) {
 					pad = 2
 				}
 			}
 			var v [4]*Term
 			for j := 0; j < 4-pad; j++ {
-				val, ok := ex.b64Val(q[j])
+				val, ok := ex.b64Val(e, q[j])
 				v[j] = val
 				valid = ts.And(valid, ok)
 			}
